@@ -191,3 +191,55 @@ Qed.
 Theorem not_connected_errors line f :
   fst (st_write {| st_connected := false; st_out := [] |} line f) = RNotConnected.
 Proof. reflexivity. Qed.
+
+(* ---- the transport object over its whole life ---- *)
+
+(* disconnecting absorbs OS-level errors: whatever the state and whether closing fails or
+   not, disconnect returns normally; it closes the writer iff there is one *)
+Theorem disconnect_total limit s f :
+  snd (tstep limit s (TDisconnect f)) = TDone
+  /\ ts_closes (fst (tstep limit s (TDisconnect f))) = (if ts_streams s then S (ts_closes s) else ts_closes s)
+  /\ ts_out (fst (tstep limit s (TDisconnect f))) = ts_out s
+  /\ ts_reader (fst (tstep limit s (TDisconnect f))) = ts_reader s.
+Proof. cbn [tstep]. destruct (ts_streams s); cbn; repeat split; reflexivity. Qed.
+
+(* a failed connection attempt is a transport error and changes nothing *)
+Theorem connect_failure limit s : tstep limit s (TConnect false) = (s, TConnectError).
+Proof. reflexivity. Qed.
+
+Definition is_connect_ok (o : top) : bool := match o with TConnect true => true | _ => false end.
+Definition uses (o : top) : bool := match o with TRead _ | TWrite _ _ => true | _ => false end.
+
+Lemma trun_no_connect limit ops : forall s,
+  ts_streams s = false -> forallb (fun o => negb (is_connect_ok o)) ops = true ->
+  ts_streams (fst (trun limit s ops)) = false
+  /\ Forall2 (fun o x => uses o = true -> x = TRes RNotConnected) ops (snd (trun limit s ops))
+  /\ ts_closes (fst (trun limit s ops)) = ts_closes s.
+Proof.
+  induction ops as [|o r IH]; intros s Hs Hf; cbn [trun fst snd].
+  - repeat split; [exact Hs|constructor].
+  - cbn [forallb] in Hf. apply andb_true_iff in Hf. destruct Hf as [Ho Hr].
+    assert (H1 : ts_streams (fst (tstep limit s o)) = false /\ (uses o = true -> snd (tstep limit s o) = TRes RNotConnected)
+                 /\ ts_closes (fst (tstep limit s o)) = ts_closes s).
+    { destruct o as [[|]| | | |fails|line f]; cbn [tstep is_connect_ok negb uses] in *; try discriminate Ho;
+        rewrite ?Hs; cbn [negb fst snd ts_streams ts_closes]; try (repeat split; try assumption; try reflexivity; intros; discriminate).
+      all: unfold st_write; cbn [st_connected]; rewrite ?Hs; cbn; repeat split; try assumption; reflexivity. }
+    destruct (tstep limit s o) as [s1 x]. cbn [fst snd] in H1. destruct H1 as [K1 [K2 K3]].
+    destruct (IH s1 K1 Hr) as [J1 [J2 J3]]. destruct (trun limit s1 r) as [s2 xs]. cbn [fst snd] in *.
+    repeat split; [exact J1|constructor; [exact K2|exact J2]|rewrite J3; exact K3].
+Qed.
+
+(* using the transport before it was (successfully) connected raises the transport error:
+   in every history without a successful connect — failed connects, disconnects, anything
+   the peer does — every read and every write gives it, and nothing is ever closed *)
+Theorem never_connected limit ops :
+  forallb (fun o => negb (is_connect_ok o)) ops = true ->
+  Forall2 (fun o x => uses o = true -> x = TRes RNotConnected) ops (snd (trun limit ts_init ops))
+  /\ ts_closes (fst (trun limit ts_init ops)) = 0%nat.
+Proof. intros H. destruct (trun_no_connect limit ops ts_init eq_refl H) as [_ [H2 H3]]. exact (conj H2 H3). Qed.
+
+(* a successful connect starts from a clean stream whatever happened before *)
+Theorem connect_fresh limit s :
+  let s1 := fst (tstep limit s (TConnect true)) in
+  ts_streams s1 = true /\ ts_reader s1 = {| r_buf := []; r_eof := false |} /\ ts_out s1 = [] /\ ts_closes s1 = ts_closes s.
+Proof. cbn. repeat split. Qed.
